@@ -137,6 +137,7 @@ Inductive err :=
 | E1_port_malformed
 | E1_port_garbage
 | E1_port_invalid
+| E1_garbage_after_dst_port  (* "garbage after the destination port" *)
 | E2_version (v : N)
 | E2_command (c : N)
 | E2_family (f : N)
@@ -313,8 +314,8 @@ Definition v1_extract_port (trailingSpace : bool) (t : bytes) : err + (N * bytes
       end
   end.
 
-(* One::ParseAddresses; what follows the destination port is not looked at *)
-Definition v1_addresses (t : bytes) : err + (ipaddr * N * ipaddr * N) :=
+(* One::ParseAddresses; also returns what the tokenizer has left after the destination port *)
+Definition v1_addresses (t : bytes) : err + (ipaddr * N * ipaddr * N * bytes) :=
   match tok_prefix famChars 1 t with
   | None => inl E1_family
   | Some (fam, r1) =>
@@ -333,7 +334,7 @@ Definition v1_addresses (t : bytes) : err + (ipaddr * N * ipaddr * N) :=
                   | inr (sp, r5) =>
                       match v1_extract_port false r5 with
                       | inl e => inl e
-                      | inr (dp, _) => inr (src, sp, dst, dp)
+                      | inr (dp, r6) => inr (src, sp, dst, dp, r6)
                       end
                   end
               end
@@ -351,7 +352,9 @@ Definition v1_interior (interior : bytes) (size : N) : outcome :=
       | (true, t2) =>
           match v1_addresses t2 with
           | inl e => Reject e
-          | inr (s, sp, d, dp) => Ok (header_set_addrs h s sp d dp) size
+          | inr (s, sp, d, dp, lo) =>
+              if bt_atEnd lo then Ok (header_set_addrs h s sp d dp) size       (* interiorTok.atEnd() *)
+              else Reject E1_garbage_after_dst_port
           end
       | (false, _) =>
           match tok_skip s_UNKNOWN t1 with
